@@ -1071,6 +1071,17 @@ def check_single_consumer(ctx, R, classes):
                     where = ctx.where(fn, n.lineno)
             if once > 1:
                 ok, detail = False, 'consumer %s is scheduled %d times in __init__' % (drain.name, once)
+            # a consumer that is started once, from the constructor, is never started again: it must never end (a loop header
+            # that tests node state - `while self.upstreams:` - lets it die during a temporary disconnect)
+            if once == 1 and not any((cls.name, fn_.name) in SINGLE_CONSUMER_TABLE for fn_, n_, via in expanded):
+                ended = None
+                for st, status in ctx.paths(drain, cls):
+                    if status in ('next', 'return'):
+                        ended = st.events
+                R.ob('SINGLE-CONSUMER', con, 'consumer-never-ends', ended is None,
+                     'the consumer %s is scheduled once, at construction, but can terminate: what is queued then, and everything '
+                     'that arrives later, is never emitted' % drain.name, ctx.where(drain, drain.node.lineno),
+                     fmt_path(ended) if ended else None)
             # a consumer that is replaced by signalling it to stop (SINGLE_CONSUMER_TABLE) must end on that signal alone: its
             # loop test is `not <signal>.is_set()` (or `while True: if <signal>.is_set(): break`), nothing may keep it alive
             if any((cls.name, fn_.name) in SINGLE_CONSUMER_TABLE for fn_, n_, via in expanded):
@@ -1724,3 +1735,29 @@ def check_cancel_only_timers(ctx, R, modules=('streamz.core', 'streamz.sinks', '
                  '%s.cancel(): the receiver is not a stored timer handle - cancelling a task / future aborts the element it is '
                  'processing, and which element that is depends on timing' % src(recv)[:50], ctx.where(fn, c.lineno))
     R.count('cancel_sites', n)
+
+
+def check_zip_consume_first(ctx, R):
+    """zip.update takes the heads it is going to emit out of the per-upstream buffers *before* it emits them: the emission is a
+    synchronous call into the downstream graph, and whatever happens there (a sink that connects another input to this zip, a
+    feedback edge that delivers the next element) must find the buffers without the entries that are being delivered."""
+    M = ctx.model
+    cls = M.cls('streamz.core', 'zip')
+    up = cls.find('update')
+    bad, n = None, 0
+    seen_early = False
+    for st, status in ctx.paths(up, cls, no_inline=('pack_literals',)):
+        evs = st.events
+        ems = [i for i, e in enumerate(evs) if e.kind == 'EM']
+        if not ems:
+            continue
+        n += 1
+        late = [e for e in evs[ems[0]:] if e.kind == 'TK' and e.a == 'buffers' and e.c in ('popleft', 'pop')]
+        early = [e for e in evs[:ems[0]] if e.kind == 'TK' and e.a == 'buffers' and e.c in ('popleft', 'pop')]
+        seen_early = seen_early or bool(early)
+        if late:
+            bad = evs
+    R.ob('SWAP-ATOMIC', ctx.construct(up), 'buffers-consumed-before-emit', bad is None and n > 0 and seen_early,
+         'zip.update emits the heads of its buffers and removes them only afterwards: an input connected (or an element delivered) '
+         'from inside that emission finds stale heads - the late pop then hits the wrong buffer entry or an empty buffer',
+         ctx.where(up, up.node.lineno), fmt_path(bad) if bad else None, n)
